@@ -240,6 +240,27 @@ func clusterSeq(r *rand.Rand) []string {
 			}
 		}
 	}
+	// one-way partitions: one node marks a peer unhealthy, the others (and the peer itself) do not
+	for i := range set {
+		for j := range set {
+			for jj, x := range set {
+				seq = append(seq, fmt.Sprintf("sethealth %d %s 1", j, id(x)))
+				_ = jj
+			}
+		}
+		victim := set[(i+1+r.Intn(n-1))%n]
+		seq = append(seq, fmt.Sprintf("sethealth %d %s 0", i, id(victim)))
+		for _, k := range keys {
+			for e := range set {
+				seq = append(seq, fmt.Sprintf("alloc %d %s", e, id(k)))
+			}
+		}
+	}
+	for j := range set {
+		for _, x := range set {
+			seq = append(seq, fmt.Sprintf("sethealth %d %s 1", j, id(x)))
+		}
+	}
 	if r.Intn(2) == 0 { // a peer leaves everywhere
 		x := set[r.Intn(n)]
 		for i := range set {
